@@ -19,6 +19,7 @@ TRUSTED = ['program level: the reference evaluator Spec/MacroLang.v is the oracl
            'modelled, not verified: Token.__eq__ as (category, text) equality; \\csname/\\expandafter/\\let themselves are only covered at program level']
 ASSUMPTIONS = ['normal form NF-macro of DESIGN section 9']
 CASE_TIMEOUT = 20
+SKIP_WHEN_MODEL_GIVES_UP = True
 
 LETTERS = [[11, [c]] for c in (97, 98, 99, 100, 101)]
 PUNCT = [[12, [c]] for c in (44, 46, 59, 58, 49, 50)]
@@ -195,7 +196,7 @@ def rand_content(rng, ctx, depth, params, n=None, allow_delim=True, allow_def=Tr
         if params and r < 0.65:
             out.append(['param', rng.randint(1, params)])
             continue
-        if params and r < 0.68:
+        if params and r < 0.68 and not ctx.get('nested'):
             out.append(['hash'])
             continue
         if depth > 0 and r < 0.75:
@@ -210,7 +211,7 @@ def rand_content(rng, ctx, depth, params, n=None, allow_delim=True, allow_def=Tr
 def rand_body(rng, ctx, i, sig, depth):
     total = sig['np'] + (1 if sig['opt'] else 0)
     body = rand_content(rng, ctx, depth, total, n=rng.randint(1, 4), allow_delim=True, allow_def=False, callable_ids=list(range(i)))
-    if rng.random() < 0.25 and sig['how']['kind'] == 'def' or rng.random() < 0.1:
+    if ctx.get('nested') and (rng.random() < 0.35 and sig['how']['kind'] == 'def' or rng.random() < 0.15):
         # a definition nested in the body (its parameters are written ##k) followed by a use of it; the inner name is private
         inner = ctx['next_inner']
         ctx['next_inner'] += 1
@@ -284,7 +285,10 @@ def rand_main(rng, ctx, depth, in_group):
 
 def rand_prog(rng, depth):
     n = rng.randint(1, 5)
-    ctx = dict(n=n, sigs={}, w=0, callable=[], alias={}, next_alias=20, defined=set(), local_depth={}, next_inner=60, feeders=[])
+    # a program uses either literal ## or definitions nested in bodies, never both: a lone # token that reaches the body of an
+    # inner definition is "Illegal parameter number" in TeX itself, so such programs have no meaning to compare with
+    ctx = dict(n=n, sigs={}, w=0, callable=[], alias={}, next_alias=20, defined=set(), local_depth={}, next_inner=60, feeders=[],
+               nested=rng.random() < 0.5)
     prog = []
     for i in range(n):
         ctx['sigs'][i] = rand_sig(rng, i)
